@@ -415,6 +415,7 @@ func main() {
 	}
 	// frame-size decision of the receive loop: a peer announces a frame length on a real Conn over net.Pipe
 	g.frames()
+	g.queued()
 	h.Finish("structured stream: well-formed messages of all six types (edge big ints, empty lists, max uint64) through EncodeMessage/DecodeMessage; malformed stream: JSON field mutations, fixed adversarial bodies per type, short frames, random bytes. distinct = distinct (line, output) pairs")
 }
 
@@ -482,6 +483,51 @@ func (g *G) frames() {
 			g.h.FailWith("frame-lost", fmt.Sprintf("receive limit %d, frame of %d bytes within the limit was not delivered: %s", p.max, p.size, out), []string{line})
 		}
 	}
+}
+
+// queued: several encoded messages arrive back to back on a real Conn before the reader takes the first one;
+// each must come out byte for byte as it went in (the receive loop hands over its own copy of every frame) and
+// decode to the message that was encoded
+func (g *G) queued() {
+	local, peer := net.Pipe()
+	conn, closer, err := connection.NewConn(connection.WithNetConn(local), connection.KeepaliveInterval(0), connection.KeepaliveTimeout(0))
+	if err != nil {
+		return
+	}
+	defer func() { peer.Close(); go closer() }()
+	var frames [][]byte
+	for i := 0; i < 6; i++ {
+		b, err := protocol.EncodeMessage(g.message(1 + 2*(i%3))) // request messages of the three kinds
+		if err != nil {
+			continue
+		}
+		frames = append(frames, b)
+	}
+	go func() {
+		peer.SetWriteDeadline(time.Now().Add(3 * time.Second))
+		for _, f := range frames {
+			var hdr [4]byte
+			binary.BigEndian.PutUint32(hdr[:], uint32(len(f)))
+			peer.Write(hdr[:])
+			peer.Write(f)
+		}
+	}()
+	time.Sleep(150 * time.Millisecond) // let the frames queue up inside the Conn
+	g.h.Res.OracleEvals++
+	for i, f := range frames {
+		ctx, cancel := context.WithTimeout(context.Background(), 3*time.Second)
+		data, err := conn.Read(ctx)
+		cancel()
+		if err != nil {
+			g.h.FailWith("frame-lost", fmt.Sprintf("queued frame %d of %d was not delivered: %v", i, len(frames), err), []string{"queued"})
+			return
+		}
+		if string(data) != string(f) {
+			g.h.FailWith("frame-altered", fmt.Sprintf("queued frame %d of %d came out of the connection with other bytes than went in (it was still waiting when later frames arrived)", i, len(frames)), []string{"queued"})
+			return
+		}
+	}
+
 }
 
 func sameMsg(a, b protocol.Message) bool {
